@@ -34,6 +34,8 @@ type Conn struct {
 	ReadLog  []int
 	// Yields controls whether Read/Write/Close are hook points of the seeded controller
 	Yields bool
+	// frozen: reads on this end block forever (a peer that is still connected but silent and deaf)
+	frozen bool
 	// Addr, when set, is this end's address (crypto/ssh's known-hosts check wants a TCP address)
 	Addr net.Addr
 }
@@ -124,7 +126,7 @@ func (c *Conn) Read(p []byte) (int, error) {
 			return 0, &net.OpError{Op: "read", Net: "sim", Err: net.ErrClosed}
 		}
 		now := c.K.Now()
-		if len(c.in) > 0 && c.in[0].at <= now && len(p) > 0 {
+		if len(c.in) > 0 && c.in[0].at <= now && len(p) > 0 && !c.frozen {
 			seg := &c.in[0]
 			n := len(seg.b)
 			if n > len(p) {
@@ -147,7 +149,7 @@ func (c *Conn) Read(p []byte) (int, error) {
 
 			return n, nil
 		}
-		if len(c.in) == 0 && c.rclosed {
+		if len(c.in) == 0 && c.rclosed && !c.frozen {
 			c.mu.Unlock()
 
 			return 0, io.EOF
@@ -160,8 +162,11 @@ func (c *Conn) Read(p []byte) (int, error) {
 		w := make(chan struct{})
 		c.waitc = w
 		var d time.Duration = -1
-		if len(c.in) > 0 {
+		if len(c.in) > 0 && !c.frozen {
 			d = c.in[0].at - now
+			if d < 0 {
+				d = 0
+			}
 		}
 		if !c.rdl.IsZero() {
 			if dd := time.Until(c.rdl); d < 0 || dd < d {
@@ -202,6 +207,13 @@ func (c *Conn) Close() error {
 	c.peer.wake()
 
 	return nil
+}
+
+// Freeze makes this end deaf: its reads block from now on (data keeps queueing).
+func (c *Conn) Freeze() {
+	c.mu.Lock()
+	c.frozen = true
+	c.mu.Unlock()
 }
 
 // Closed reports whether this end was closed.
